@@ -202,12 +202,15 @@ pub open spec fn fparms_of(d: Dictionary, st: Store) -> Result<Vec<Dictionary>> 
 pub open spec fn general_keys() -> Set<Seq<char>> {
     Set::<Seq<char>>::empty().insert("Length"@).insert("Filter"@).insert("DecodeParms"@).insert("F"@).insert("FFilter"@).insert("FDecodeParms"@)
 }
-pub proof fn lemma_remove6(m: DMap, a: Seq<char>, b: Seq<char>, c: Seq<char>, d: Seq<char>, e: Seq<char>, f: Seq<char>)
-    ensures m.remove(a).remove(b).remove(c).remove(d).remove(e).remove(f)
-        == m.remove_keys(Set::<Seq<char>>::empty().insert(a).insert(b).insert(c).insert(d).insert(e).insert(f))
+// map extensionality, as an implication (no precondition): a map that has lost exactly `keys` is `remove_keys(keys)`
+pub open spec fn is_without_keys(m0: DMap, m: DMap, keys: Set<Seq<char>>) -> bool {
+    (forall|k: Seq<char>| #[trigger] m.dom().contains(k) <==> (m0.dom().contains(k) && !keys.contains(k)))
+    && (forall|k: Seq<char>| m.dom().contains(k) ==> #[trigger] m[k] == m0[k])
+}
+pub proof fn lemma_without_keys(m0: DMap, m: DMap, keys: Set<Seq<char>>)
+    ensures is_without_keys(m0, m, keys) ==> m == m0.remove_keys(keys)
 {
-    assert(m.remove(a).remove(b).remove(c).remove(d).remove(e).remove(f)
-        =~= m.remove_keys(Set::<Seq<char>>::empty().insert(a).insert(b).insert(c).insert(d).insert(e).insert(f)));
+    if is_without_keys(m0, m, keys) { assert(m =~= m0.remove_keys(keys)); }
 }
 
 // ---- the decoders: uninterpreted here. None = the decoder reports an error. ----
@@ -310,6 +313,10 @@ fn hoist_flatten(v: Vec<Option<Dictionary>>) -> (r: Vec<Option<Dictionary>>) ens
 #[verifier::external_body]
 fn hoist_vec_from(s: &[u8]) -> (r: Vec<u8>) ensures r@ == s@ { Vec::from(s) }
 #[verifier::external_body]
+fn hoist_range_clone(x: &Range<usize>) -> (r: Range<usize>) ensures r == *x { x.clone() }
+#[verifier::external_body]
+fn hoist_arc_to_vec(a: &Arc<[u8]>) -> (r: Vec<u8>) ensures r@ == (**a)@ { (&**a).into() }
+#[verifier::external_body]
 fn hoist_into_arc(v: Vec<u8>) -> (r: Arc<[u8]>) ensures (*r)@ == v@ { v.into() }
 
 // crypt.rs:547 (abstract callee; Algorithm 1 / 1.A: unit decrypt). The real parameter is `&'buf mut [u8]` and the result
@@ -370,6 +377,10 @@ impl<B: Backend, OC, SC, L> Storage<B, OC, SC, L> {
 //@@ Storage::decode
 }
 
+
+impl<I: Object> Stream<I> {
+//@@ Stream::data
+}
 
 }
 fn main(){}
